@@ -309,6 +309,14 @@ export function makeRunner(rt_, mode) {
         const h = (v) => cg.buildParserFromRuntype(new cg.ConstRuntype(undefined, v), "T", false).hash256();
         const ds = ["\ud800", "\udc00", "\ufffd", "a\ud800b", "a\ufffdb"].map(h);
         if (new Set(ds).size !== ds.length) bad.add("c13.collision");
+        // one NAME in two tables of named types (a compiled module's and another's): `T = { next: <the other table's T> }` with
+        // that other `T = { v: string }` is not the recursive `R = { next: R }`
+        const inner = buildEnv([["T", [A("object"), [["v", [A("typeof"), "string"]]], []]]], [A("ref"), "T"]);
+        const outer = buildEnv([["T", [A("object"), [["next", A("any")]], []]]], [A("ref"), "T"]);
+        Object.defineProperty(outer.table, "T", { value: new cg.ObjectRuntype(undefined, { next: inner.rt }, []), enumerable: true, writable: true, configurable: true });
+        const rec = buildEnv([["R", [A("object"), [["next", [A("ref"), "R"]]], []]]], [A("ref"), "R"]);
+        const dOuter = cg.buildParserFromRuntype(outer.rt, "T", false).hash256(), dRec = cg.buildParserFromRuntype(rec.rt, "T", false).hash256();
+        if (dOuter === dRec) bad.add("c13.collision");
       } catch (e) { bad.add("c13.hash-throws"); }
     }
     const dig = (x) => [A("d"), x.d == null ? A("throw") : x.d];
